@@ -143,6 +143,39 @@ def applyModel (d : Dir) (idx : Nat) (m : List String) (p : Array Pos) : Option 
   | _ => none
 
 
+/-- `-` = no device table, else the delta the device yields at the face's ppem -/
+def parseDev (t : String) : Option (Option Int) :=
+  if t = "-" then some none else t.toInt?.map some
+
+/-- eight tokens: xPlacement yPlacement xAdvance yAdvance xPlaDevice yPlaDevice xAdvDevice yAdvDevice -/
+def parseVRD : List String → Option ValueRecordD
+  | [xp, yp, xa, ya, d1, d2, d3, d4] => do
+      pure { xPlacement := (← xp.toInt?), yPlacement := (← yp.toInt?), xAdvance := (← xa.toInt?), yAdvance := (← ya.toInt?),
+             xPlaDevice := (← parseDev d1), yPlaDevice := (← parseDev d2), xAdvDevice := (← parseDev d3),
+             yAdvDevice := (← parseDev d4) }
+  | _ => none
+
+/-- the model side of `gp subd`: value records with device tables on a face with ppem (ux / uy = ppem_x / ppem_y ≠ 0) -/
+def applyModelD (d : Dir) (idx : Nat) (m : List String) (p : Array Pos) : Option String :=
+  let unchanged := s!"ok 0 {idx} 0 {fmtPoss p}"
+  match m with
+  | "singled" :: ux :: uy :: rest => do
+      let (vt, applies) := (rest.take 8, rest.drop 8)
+      let v ← parseVRD vt
+      if applies = ["0"] then pure unchanged else
+      match valueApplyD v (ux = "1") (uy = "1") d p idx with
+      | .ok (q, _) => pure s!"ok 1 {idx + 1} 0 {fmtPoss q}"
+      | .error e => pure (errStr e)
+  | "paird" :: j :: ux :: uy :: rest => do
+      let j ← j.toNat?
+      let v1 ← parseVRD (rest.take 8)
+      let v2 ← parseVRD ((rest.drop 8).take 8)
+      if rest.drop 16 = ["0"] then pure unchanged else
+      match pairApplyD v1 v2 (ux = "1") (uy = "1") d p idx j with
+      | .ok (q, _, _) => pure s!"ok 1 {if v2.isEmpty then j else j + 1} 0 {fmtPoss q}"
+      | .error e => pure (errStr e)
+  | _ => none
+
 /-! ### `gp pos`: the attachment lookups of a whole GPOS table on an injected buffer (model: GposMark.lean) -/
 section pos
 open RbModel.GposMark
@@ -285,6 +318,11 @@ def handle (ts : List String) : Option String :=
       let (m, ps) := splitBar rest
       let p ← parsePoss ps
       applyModel d idx m p
+  | "gp" :: "subd" :: _px :: _py :: _kind :: _hex :: _props :: d :: idx :: _infos :: rest => do
+      let d ← parseDir d; let idx ← idx.toNat?
+      let (m, ps) := splitBar rest
+      let p ← parsePoss ps
+      applyModelD d idx m p
   | "kern" :: "mk" :: d :: len :: mask :: cross :: pairs :: infos :: rest => do
       let d ← parseDir d; let len ← len.toNat?; let mask ← mask.toNat?
       let tr ← parseTriples pairs; let infos ← parseKInfos infos
